@@ -1,5 +1,6 @@
 """C07 — persisted consensus state restores exactly.
-Proof: Props.C07 (decode_encode on the modelled disk schema, restore_bisim over PlayerM).  Tie C + monitor on the REAL code
+Proof: Props.C07 (decode_encode on the modelled disk schema; restore_bisim — full — over PlayerM: every continuation yields the same
+actions from persistView σ as from σ up to late-credential noise).  Tie C + monitor on the REAL code
 (PlayerDrive `persist` ops): at random reachable states the harness calls the real encode (msgp or reflect) and decode, prints the
 canonical dump of the decoded (actions, player, router) — compared with (a) the live state restricted to what encode writes
 (dump equality, harness-side: `PERSIST-DIFF`), (b) PlayerM's persistView — and from then on feeds every event to BOTH the live and
